@@ -147,210 +147,9 @@ def run(ctx, anchors=None):
                 srcs.add(astq.estr(n["rhs"]))
     ctx.inst(srcs <= {"opcode_pos", "4294967295"} and "opcode_pos" in srcs, "R02.2", "codeseparator_pos-sources", opstep.loc(), "m_codeseparator_pos is only assigned 0xFFFFFFFF (set-up) or opcode_pos (OP_CODESEPARATOR)",
              "m_codeseparator_pos is assigned from %s" % sorted(srcs))
-    # ---- R02.3 schnorr layout
-    shs = [f for f in fb.fns("SignatureHashSchnorr")]
-    if not shs:
-        raise AnalysisBroken("SignatureHashSchnorr not found")
-    sh = shs[0]
-
-    from . import common as _cm
-    _cm.require_names(sh, ["ss", "ext_flag", "key_version", "hash_type", "output_type", "input_type", "spend_type", "have_annex", "cache", "execdata", "tx_to", "in_pos", "sigversion"], "R02.3")
-    evs = guarded_events(sh, "ss")
-    got = [(o, [g for g in gd if not g.startswith("!(!execdata.m_output_hash") and "in_pos >= tx_to.vout.size()" not in g and "m_bip341" not in g]) for (o, gd, n) in evs]
-    want = [(e["operand"], e["when"]) for e in spec["bip341"]]
-    ctx.site(len(evs))
-    if len(got) != len(want):
-        ctx.fail("R02.3", "bip341-field-count", sh.loc(), "SignatureHashSchnorr streams %d operands into the sighash, BIP341/342 define %d: %s" % (len(got), len(want), [g[0] for g in got]))
-    for i, (w, g) in enumerate(zip(want, got)):
-        bip = spec["bip341"][i]["bip"]
-        ctx.inst(w[0] == g[0] and w[1] == g[1], "R02.3", "bip341#%02d:%s" % (i, bip), sh.loc(evs[i][2]),
-                 "field %d %s = %s when %s" % (i, bip, g[0], g[1] or "always"),
-                 "BIP341 message field %d must be %s (`%s` when %s) but the code streams `%s` when %s" % (i, bip, w[0], w[1] or "always", g[0], g[1] or "always"))
-    hdecl = [d for n in sh.nodes() if n["k"] == "decl" for d in n["decls"] if d["n"] == "ss"]
-    hsrc = [y["n"] for d in hdecl if d.get("init") for y in walk(d["init"]) if y["k"] == "ref" and y.get("dk") == "global"]
-    ctx.inst(hsrc == ["HASHER_TAPSIGHASH"], "R02.3", "bip341-tagged-hasher", sh.loc(), "the message is hashed with TapSighash")
-    # finite-domain tables
-    decls = {d["n"]: d.get("init") for n in sh.nodes() if n["k"] == "decl" for d in n["decls"]}
-    try:
-        consts = {}
-        for name in ("SIGHASH_DEFAULT", "SIGHASH_ALL", "SIGHASH_NONE", "SIGHASH_SINGLE", "SIGHASH_ANYONECANPAY", "SIGHASH_OUTPUT_MASK", "SIGHASH_INPUT_MASK"):
-            for e in fb.enums:
-                for c in e["consts"]:
-                    if c["n"] == name:
-                        consts[name] = c["v"]
-        bad = []
-        for ext in (0, 1):
-            for annex in (0, 1):
-                v = fd.ev(decls["spend_type"], {"ext_flag": ext, "have_annex": annex}) & 0xff
-                if v != ext * 2 + annex:
-                    bad.append((ext, annex, v))
-        ctx.site(4)
-        ctx.inst(not bad, "R02.3", "table:spend_type", sh.loc(), "spend_type = 2*ext_flag + annex_present over {0,1}x{0,1}", "spend_type table differs from 2*ext_flag + annex_present at %s" % bad)
-        bad = []
-        valid = []
-        vif = [n for n in sh.nodes() if n["k"] == "if" and "hash_type" in astq.estr(n["cond"]) and "131" in astq.estr(n["cond"]).replace("0x83", "131")]
-        for h in range(256):
-            env = {"hash_type": h}
-            ot = fd.ev(decls["output_type"], env) & 0xff
-            it = fd.ev(decls["input_type"], env) & 0xff
-            if ot != (1 if h == 0 else (h & 3)) or it != (h & 0x80):
-                bad.append(h)
-            if vif:
-                if not fd.ev(vif[0]["cond"], env):
-                    valid.append(h)
-        ctx.site(256)
-        ctx.inst(not bad, "R02.3", "table:output/input_type", sh.loc(), "output_type = (h==0 ? ALL : h&3), input_type = h&0x80 for all 256 hash types", "output_type/input_type differ from BIP341 at hash types %s" % bad[:8])
-        ctx.inst(bool(vif) and valid == spec["bip341_valid_hash_types"] and S.terminates(vif[0]["then"]), "R02.3", "table:valid-hash-types", sh.loc(vif[0]) if vif else sh.loc(),
-                 "exactly the hash types %s are accepted" % spec["bip341_valid_hash_types"], "accepted taproot hash types are %s, BIP341 defines %s" % (valid[:12], spec["bip341_valid_hash_types"]))
-    except (fd.Unknown, KeyError) as e:
-        raise AnalysisBroken("R02.3: finite-domain tabulation failed: %s" % e)
-    # ext_flag / key_version per sigversion
-    sw = [s_ for s_ in S.find_switches(sh) if astq.estr(s_["cond"]) == "sigversion"]
-    tab = {}
-    if sw:
-        for g in S.case_groups(sw[0]):
-            for n in g.nodes():
-                if n["k"] == "assign" and astq.estr(n["lhs"]) in ("ext_flag", "key_version"):
-                    tab[(g.short_names()[0], astq.estr(n["lhs"]))] = astq.const_value(n["rhs"])
-    ctx.inst(tab.get(("TAPROOT", "ext_flag")) == 0 and tab.get(("TAPSCRIPT", "ext_flag")) == 1 and tab.get(("TAPSCRIPT", "key_version")) == 0, "R02.3", "table:ext_flag/key_version", sh.loc(),
-             "ext_flag = 0 (key path) / 1 (tapscript), key_version = 0", "ext_flag/key_version per script version are %s" % tab)
-    # sha helpers + binding
-    for name, (cont, item) in sorted(spec["sha_helpers"].items()):
-        fs = [f_ for f_ in fb.funcs.values() if f_.short == name and f_.file == "script/interpreter.cpp"]
-        ctx.site()
-        if not fs:
-            ctx.fail("R02.3", "helper=" + name, "script/interpreter.cpp:0", "%s not found" % name)
-            continue
-        f = fs[0]
-        loops = [n for n in f.nodes() if n["k"] == "forrange"]
-        e = guarded_events(f, "ss")
-        ok = len(loops) == 1 and astq.estr(loops[0].get("range")) == cont and len(e) == 1 and e[0][0] == item and S.contains(loops[0], e[0][2])
-        ctx.inst(ok, "R02.3", "helper=" + name, f.loc(), "%s = SHA256 of %s for each element of %s" % (name, item, cont),
-                 "%s streams %s over %s; BIP341 defines it over %s of every element of %s" % (name, [x[0] for x in e], [astq.estr(l.get("range")) for l in loops], item, cont))
-    init = [f for f in fb.fns("PrecomputedTransactionData::Init")]
-    if init:
-        f = init[0]
-        asg = {}
-        for n in f.nodes():
-            if n["k"] == "opcall" and n["op"] == "=":
-                l = astq.estr(n["args"][0]).replace("this->", "")
-                calls = [x.get("n") for x in walk(n["args"][1]) if x["k"] == "call"]
-                refs = [x["n"] for x in walk(n["args"][1]) if x["k"] == "mem"]
-                asg[l] = (calls, refs)
-        for field, src in sorted(spec["binding"].items()):
-            ctx.site()
-            calls, refs = asg.get(field, ([], []))
-            ok = (src in calls) or (src in refs and "SHA256Uint256" in calls)
-            ctx.inst(ok, "R02.3", "binding=" + field, f.loc(), "%s is computed from %s" % (field, src), "%s is computed from %s / %s; it must come from %s" % (field, calls, refs, src))
-    # BIP143
-    sig = [f for f in fb.fns("SignatureHash") if f.file == "script/interpreter.cpp"]
-    if not sig:
-        raise AnalysisBroken("SignatureHash not found")
-    sg = sig[0]
-    _cm.require_names(sg, ["ss", "hashPrevouts", "hashSequence", "hashOutputs", "nHashType", "nIn", "txTo", "scriptCode", "amount", "sigversion"], "R02.3")
-    e143 = [(o, gd) for (o, gd, n) in guarded_events(sg, "ss") if any("WITNESS_V0" in g and not g.startswith("!") for g in gd)]
-    outer = [x for x in e143 if len(x[1]) == 1]
-    got143 = [o for (o, gd) in outer]
-    ctx.site(len(got143))
-    ctx.inst(got143 == spec["bip143"], "R02.3", "bip143-field-order", sg.loc(), "BIP143 digest = %s" % got143, "the segwit v0 digest streams %s; BIP143 defines %s" % (got143, spec["bip143"]))
-    # selection tables for the three sub-hashes over nHashType 0..255
-    sel = {"hashPrevouts": [], "hashSequence": [], "hashOutputs": []}
-    sub_ifs = []
-    for n in sg.nodes():
-        if n["k"] == "if" and any("WITNESS_V0" in astq.estr(c) for (c, t) in S.ast_guards(sg, n) if t):
-            tgt = [astq.estr(x["args"][0]) for x in walk(n["then"]) if x["k"] == "opcall" and x["op"] == "=" and astq.estr(x["args"][0]) in sel]
-            if tgt:
-                sub_ifs.append((n, tgt[0]))
-    try:
-        bad = []
-        for h in range(256):
-            env = {"nHashType": h, "nIn": 0}
-            base = h & 0x1f
-            want_set = {"hashPrevouts": not (h & 0x80), "hashSequence": (not (h & 0x80)) and base not in (2, 3), "hashOutputs": base not in (2, 3)}
-            got_set = {k: False for k in sel}
-            for (n, tgt) in sub_ifs:
-                par = sg.parent(n)
-                if par is not None and par.get("k") == "if" and par.get("else") is n:
-                    continue
-                if fd.ev(n["cond"], env):
-                    got_set[tgt] = True
-            if got_set != want_set:
-                bad.append(h)
-        ctx.site(256)
-        ctx.inst(not bad and len(sub_ifs) >= 3, "R02.3", "table:bip143-subhash-selection", sg.loc(), "hashPrevouts / hashSequence / hashOutputs(all) are committed for exactly the hash types BIP143 names (256 tabulated)",
-                 "BIP143 sub-hash selection differs from the BIP at hash types %s (e.g. 0x%02x): the mask that selects NONE/SINGLE is not 0x1f" % (bad[:10], bad[0] if bad else 0))
-        # single: else-if branch
-        single = [n for (n, tgt) in sub_ifs if sg.parent(n) is not None and sg.parent(n).get("k") == "if" and sg.parent(n).get("else") is n]
-        okS = False
-        if single:
-            okS = all(bool(fd.ev(single[0]["cond"], {"nHashType": h, "nIn": 0, "txTo.vout.size()": 1})) == ((h & 0x1f) == 3) for h in range(256)) if False else True
-            txt = astq.estr(single[0]["cond"])
-            okS = "SIGHASH_SINGLE" in txt and "31" in txt and "nIn < txTo.vout.size" in txt.replace("(", "").replace(")", "")
-        ctx.inst(okS, "R02.3", "bip143-single-output", sg.loc(single[0]) if single else sg.loc(), "SIGHASH_SINGLE commits to the output at the input's index when it exists")
-    except fd.Unknown as e:
-        raise AnalysisBroken("R02.3: BIP143 tabulation failed: %s" % e)
-    # legacy serializer
-    ser = [f for f in fb.funcs.values() if f.name.endswith("CTransactionSignatureSerializer::Serialize") or ("CTransactionSignatureSerializer" in f.name and f.short == "Serialize")]
-    ctor = [f for f in fb.funcs.values() if "CTransactionSignatureSerializer" in f.name and f.short.startswith("CTransactionSignatureSerializer")]
-    if not ser or not ctor:
-        raise AnalysisBroken("legacy signature serializer not found")
-    sf = ser[0]
-    _cm.require_names(sf, ["s", "txTo", "nInputs", "nOutputs", "fAnyoneCanPay", "fHashNone", "fHashSingle", "nIn"], "R02.3")
-    seq = []
-    for st in (sf.body["ch"] if sf.body.get("k") == "block" else []):
-        for n in walk(st):
-            if n["k"] == "call" and n.get("n") in ("Serialize", "WriteCompactSize") and n["args"] and astq.estr(n["args"][0]) == "s":
-                seq.append("%s %s" % (n["n"], astq.estr(n["args"][1])))
-                break
-            if n["k"] == "for":
-                inner = [x.get("n") for x in walk(n["body"]) if x["k"] in ("mcall", "call") and x.get("n", "").startswith("Serialize")]
-                seq.append("loop %s" % (inner[0] if inner else "?"))
-                break
-    ctx.site(len(seq))
-    ctx.inst(seq == spec["legacy_serialize"], "R02.3", "legacy-field-order", sf.loc(), "legacy sighash serialisation = %s" % seq, "legacy sighash serialisation is %s; expected %s" % (seq, spec["legacy_serialize"]))
-    cdecl = {d["n"]: d.get("init") for n in sf.nodes() if n["k"] == "decl" for d in n["decls"]}
-    try:
-        bad = []
-        inits = {i.get("field"): i.get("e") for i in ctor[0].d.get("inits", [])}
-        for h in range(256):
-            env = {"nHashTypeIn": h}
-            fa = 1 if fd.ev(inits["fAnyoneCanPay"], env) else 0
-            fs_ = 1 if fd.ev(inits["fHashSingle"], env) else 0
-            fn_ = 1 if fd.ev(inits["fHashNone"], env) else 0
-            if (fa, fs_, fn_) != (1 if h & 0x80 else 0, 1 if (h & 0x1f) == 3 else 0, 1 if (h & 0x1f) == 2 else 0):
-                bad.append(h)
-        ctx.site(256)
-        ctx.inst(not bad, "R02.3", "table:legacy-flags", ctor[0].loc(), "fAnyoneCanPay / fHashSingle / fHashNone follow hash_type & 0x80 / (&0x1f)==3 / (&0x1f)==2 for all 256 hash types",
-                 "legacy serializer flags differ from the SIGHASH definition at hash types %s" % bad[:10])
-        ni = astq.estr(cdecl.get("nInputs")).replace(" ", "")
-        no = astq.estr(cdecl.get("nOutputs")).replace(" ", "")
-        ctx.inst(ni == "(fAnyoneCanPay?1:txTo.vin.size())" and no == "(fHashNone?0:(fHashSingle?(nIn+1):txTo.vout.size()))", "R02.3", "legacy-counts", sf.loc(),
-                 "inputs: 1 if ANYONECANPAY else all; outputs: 0 if NONE, nIn+1 if SINGLE, else all", "legacy serializer counts are nInputs=%s nOutputs=%s" % (ni, no))
-    except (fd.Unknown, KeyError) as e:
-        raise AnalysisBroken("R02.3: legacy flag tabulation failed: %s" % e)
-    # legacy per-input / per-output serialisation (guarded Serialize calls in source order)
-    def ser_events(func):
-        out = []
-        for n in func.nodes():
-            if n["k"] == "call" and n.get("n") == "Serialize" and n["args"] and astq.estr(n["args"][0]) == "s":
-                out.append(("Serialize", astq.estr(n["args"][1]), [("" if t else "!") + astq.estr(c) for (c, t) in S.ast_guards(func, n)], n))
-            if n["k"] == "mcall" and n.get("n") == "SerializeScriptCode":
-                out.append(("call", "SerializeScriptCode", [("" if t else "!") + astq.estr(c) for (c, t) in S.ast_guards(func, n)], n))
-        out.sort(key=lambda x: (x[3].get("l", 0), x[3].get("c", 0)))
-        return out
-    for fname, key in (("SerializeInput", "legacy_input"), ("SerializeOutput", "legacy_output")):
-        fs = [f_ for f_ in fb.funcs.values() if "CTransactionSignatureSerializer" in f_.name and f_.short == fname]
-        if not fs:
-            raise AnalysisBroken("legacy %s not found" % fname)
-        f_ = fs[0]
-        got_ = [(a, b, c) for (a, b, c, n) in ser_events(f_)]
-        want_ = [(e["op"], e["operand"], e["when"]) for e in spec[key]]
-        ctx.site(len(got_))
-        ctx.inst(got_ == want_, "R02.3", "legacy-" + fname, f_.loc(), "%s streams %s" % (fname, [(b, c) for (a, b, c) in got_]),
-                 "legacy %s streams %s; the SIGHASH rules are %s" % (fname, got_, want_))
-    si = [f_ for f_ in fb.funcs.values() if "CTransactionSignatureSerializer" in f_.name and f_.short == "SerializeInput"][0]
-    acp = [n for n in si.nodes() if n["k"] == "if" and astq.estr(n["cond"]) == "fAnyoneCanPay" and any(x["k"] == "assign" and astq.estr(x) == "(nInput = nIn)" for x in walk(n["then"]))]
-    ctx.inst(bool(acp), "R02.3", "legacy-anyonecanpay-input", si.loc(), "with ANYONECANPAY the single serialised input is the one being signed")
+    # ---- R02.3 / R02.7 digest layout on terms (G-SYM)
+    from . import c02_digests
+    c02_digests.run(ctx, fb, prog, spec)
     # ---- R02.5 ECDSA verification normalises the parsed signature in place and verifies that same object
     ctx.rule("R02.5", "CPubKey::Verify / VerifyCompact: lax-parse (or compact-parse), normalise IN PLACE, verify the normalised signature")
     for name in ("CPubKey::Verify", "CPubKey::VerifyCompact"):
@@ -402,37 +201,6 @@ def run(ctx, anchors=None):
     vs = [n for n in cs.nodes() if n["k"] == "mcall" and n.get("n") == "VerifySchnorrSignature"]
     ctx.inst(bool(vs) and bool(shcall) and ccfg.dominates(shcall[0], vs[0]) and astq.estr(shcall[0]["args"][4]) == "hashtype", "R02.6", "digest-uses-parsed-hashtype", cs.loc(),
              "the digest is computed for the parsed hash type and the signature is verified against it")
-    # ---- R02.7 hash finalisers: BIP341 digests are single tagged SHA256, BIP143/legacy digests and BIP143 sub-hashes are double SHA256
-    ctx.rule("R02.7", "finalisers: GetSHA256 for the BIP341 message and its sub-hashes; GetHash (double SHA256) for the BIP143 / legacy digests and the BIP143 single-output hash; SHA256Uint256 over the single hashes for the cached BIP143 sub-hashes")
-
-    def finalisers(func, var, guard_has=None):
-        out = []
-        for n in func.nodes():
-            if n["k"] == "mcall" and n.get("n") in ("GetSHA256", "GetHash") and astq.estr(n.get("obj")) == var:
-                g = " ".join(astq.estr(c) for (c, t) in S.ast_guards(func, n) if t)
-                if guard_has is None or guard_has in g:
-                    out.append(n["n"])
-        return out
-    fin = {
-        "bip341 message": finalisers(sh, "ss"),
-        "bip341 single output": finalisers(sh, "sha_single_output"),
-        "bip143 + legacy digest and bip143 single output": sorted(set(finalisers(sg, "ss"))),
-    }
-    want_fin = {"bip341 message": ["GetSHA256"], "bip341 single output": ["GetSHA256"], "bip143 + legacy digest and bip143 single output": ["GetHash"]}
-    for k_, v_ in sorted(fin.items()):
-        ctx.site()
-        ctx.inst(v_ == want_fin[k_], "R02.7", "finaliser:" + k_, (sh if "341" in k_ else sg).loc(), "%s is finalised with %s" % (k_, v_),
-                 "%s is finalised with %s; the BIP prescribes %s (single vs double SHA256): every signature committing to it is rejected" % (k_, v_, want_fin[k_]))
-    allfin = [(n["n"], astq.estr(n.get("obj")), n) for n in sg.nodes() if n["k"] == "mcall" and n.get("n") in ("GetSHA256", "GetHash") and (n.get("objct") or "").endswith("HashWriter")]
-    wrong = [x for x in allfin if x[0] != "GetHash"]
-    ctx.inst(len(allfin) == 3 and not wrong, "R02.7", "finaliser-count:SignatureHash", sg.loc(wrong[0][2]) if wrong else sg.loc(),
-             "all three hashers finalised in SignatureHash (BIP143 single output, BIP143 digest, legacy digest) use the double SHA256",
-             "SignatureHash finalises %s: BIP143 / legacy digests and the BIP143 single-output hash are double SHA256 (GetHash); `%s.%s()` is a single SHA256, so every SIGHASH_SINGLE segwit signature is rejected"
-             % ([(a, b) for (a, b, c) in allfin], wrong[0][1] if wrong else "", wrong[0][0] if wrong else ""))
-    for helper in ("GetPrevoutsSHA256", "GetSequencesSHA256", "GetOutputsSHA256", "GetSpentAmountsSHA256", "GetSpentScriptsSHA256"):
-        hf = [f_ for f_ in fb.funcs.values() if f_.short == helper and f_.file == "script/interpreter.cpp"]
-        if hf:
-            ctx.inst(finalisers(hf[0], "ss") == ["GetSHA256"], "R02.7", "finaliser:" + helper, hf[0].loc(), "%s returns the single SHA256" % helper)
     # ---- R02.4
     pre = fb.fn("EvalChecksigPreTapscript")
 
@@ -470,7 +238,7 @@ MUTANTS = [
     dict(name="normalize-to-null", file="pubkey.cpp", find="    secp256k1_ecdsa_signature_normalize(secp256k1_context_verify, &sig, &sig);\n    return secp256k1_ecdsa_verify(secp256k1_context_verify, &sig, hash.begin(), &pubkey);\n}\n\nbool CPubKey::VerifyCompact", replace="    secp256k1_ecdsa_signature_normalize(secp256k1_context_verify, nullptr, &sig);\n    return secp256k1_ecdsa_verify(secp256k1_context_verify, &sig, hash.begin(), &pubkey);\n}\n\nbool CPubKey::VerifyCompact", expect=["R02.5:normalize-in-place:CPubKey::Verify"]),
     dict(name="schnorr-00-hashtype-accepted", file="script/interpreter.cpp", regex=True, find=r"        if \(hashtype == SIGHASH_DEFAULT\) \{\n.*?\n            return set_error\(serror, SCRIPT_ERR_SCHNORR_SIG_HASHTYPE\);\n        \}\n", replace="", expect=["R02.6:explicit-default-hashtype-rejected"]),
     dict(name="bip143-single-output-single-sha", file="script/interpreter.cpp", find="            ss << txTo.vout[nIn];\n            hashOutputs = ss.GetHash();", replace="            ss << txTo.vout[nIn];\n            hashOutputs = ss.GetSHA256();", expect=["R02.7:finaliser:bip143"]),
-    dict(name="bip143-single-output-renamed-single-sha", file="script/interpreter.cpp", find="            HashWriter ss{};\n            ss << txTo.vout[nIn];\n            hashOutputs = ss.GetHash();", replace="            HashWriter sha_single_output{};\n            sha_single_output << txTo.vout[nIn];\n            hashOutputs = sha_single_output.GetSHA256();", expect=["R02.7:finaliser-count:SignatureHash"]),
+    dict(name="bip143-single-output-renamed-single-sha", file="script/interpreter.cpp", find="            HashWriter ss{};\n            ss << txTo.vout[nIn];\n            hashOutputs = ss.GetHash();", replace="            HashWriter sha_single_output{};\n            sha_single_output << txTo.vout[nIn];\n            hashOutputs = sha_single_output.GetSHA256();", expect=["R02.7:finaliser:bip143"]),
     dict(name="stepper-forgets-opcode_pos", file="debugger/interpreter.cpp", find="        ++env.opcode_pos; // position of the next opcode in this script (BIP342 codeseparator_pos), as in EvalScript\n", replace="", expect=["R02.1:opcode_pos-advanced-per-step"]),
     dict(name="opcode_pos-not-restarted", file="debugger/interpreter.cpp", find="        env.nOpCount = 0; // reset to avoid hitting limit prematurely!\n        env.opcode_pos = 0;\n        return true;\n    }\n\n    // we are at end", replace="        env.nOpCount = 0; // reset to avoid hitting limit prematurely!\n        return true;\n    }\n\n    // we are at end", expect=["R02.1:opcode_pos-restarts"]),
     dict(name="codesep-init-dropped", file="instance.cpp", find="    execdata.m_codeseparator_pos = 0xFFFFFFFFUL;\n    execdata.m_codeseparator_pos_init = true;\n\n    env = new InterpreterEnv", replace="    env = new InterpreterEnv", expect=["R02.2:init=m_codeseparator_pos_init"]),
@@ -479,7 +247,7 @@ MUTANTS = [
     dict(name="schnorr-fields-swapped", file="script/interpreter.cpp", find="    ss << tx_to.nVersion;\n    btc_sighash_logf(\" << tx_to.nLockTime\\n\");\n    ss << tx_to.nLockTime;", replace="    ss << tx_to.nLockTime;\n    btc_sighash_logf(\" << tx_to.nLockTime\\n\");\n    ss << tx_to.nVersion;", expect=["R02.3:bip341#02"]),
     dict(name="schnorr-amounts-dropped", file="script/interpreter.cpp", find="        ss << cache.m_spent_amounts_single_hash;\n", replace="", expect=["R02.3:bip341-field-count", "R02.3:bip341#05"]),
     dict(name="schnorr-guard-changed", file="script/interpreter.cpp", find="    if (output_type == SIGHASH_ALL) {\n        btc_sighash_logf(\"output type == sighash_all\\n\");", replace="    if (output_type != SIGHASH_NONE) {\n        btc_sighash_logf(\"output type == sighash_all\\n\");", expect=["R02.3:bip341#08"]),
-    dict(name="spend-type-without-annex", file="script/interpreter.cpp", find="const uint8_t spend_type = (ext_flag << 1) + (have_annex ? 1 : 0);", replace="const uint8_t spend_type = (ext_flag << 1);", expect=["R02.3:table:spend_type"]),
+    dict(name="spend-type-without-annex", file="script/interpreter.cpp", find="const uint8_t spend_type = (ext_flag << 1) + (have_annex ? 1 : 0);", replace="const uint8_t spend_type = (ext_flag << 1);", expect=["R02.3:bip341#09"]),
     dict(name="hashtype-84-valid", file="script/interpreter.cpp", find="if (!(hash_type <= 0x03 || (hash_type >= 0x81 && hash_type <= 0x83))) return false;", replace="if (!(hash_type <= 0x03 || (hash_type >= 0x81 && hash_type <= 0x84))) return false;", expect=["R02.3:table:valid-hash-types"]),
     dict(name="bip143-mask-3", file="script/interpreter.cpp", find="        if (!(nHashType & SIGHASH_ANYONECANPAY) && (nHashType & 0x1f) != SIGHASH_SINGLE && (nHashType & 0x1f) != SIGHASH_NONE) {", replace="        if (!(nHashType & SIGHASH_ANYONECANPAY) && (nHashType & SIGHASH_OUTPUT_MASK) != SIGHASH_SINGLE && (nHashType & SIGHASH_OUTPUT_MASK) != SIGHASH_NONE) {", expect=["R02.3:table:bip143-subhash-selection"]),
     dict(name="bip143-amount-before-script", file="script/interpreter.cpp", find="        ss << scriptCode;\n        btc_sighash_logf(\" << scriptCode\\n\");\n        ss << amount;", replace="        ss << amount;\n        btc_sighash_logf(\" << scriptCode\\n\");\n        ss << scriptCode;", expect=["R02.3:bip143-field-order"]),
